@@ -37,6 +37,8 @@ mod parse;
 mod router;
 #[cfg(erbium_verif)]
 pub use outquery::verif as verif_outquery;
+#[cfg(erbium_verif)]
+pub mod verif;
 
 use bytes::BytesMut;
 use tokio_util::codec::Decoder;
